@@ -333,3 +333,51 @@ CONTRACTS += [CoarsenGrid(), EvaluateAreaForCallers(),
               TrueQuery("sparseSpACE/Grid.py", "Grid.isNested", "trapezoidal grids are nested (returns True)"),
               ComputeSolutions()]
 ASSUMPTIONS += ["compute_solutions is verified with the extend-split receiver and Integration; coarsen_grid is abstract (fixed function of (grid, area) per pass)"]
+
+
+# --------------------------------------------------------------------------- per-iteration reset of the dimension-wise strategy
+class FOutputLength(Contract):
+    file, qualname = "sparseSpACE/Function.py", "Function.output_length"
+    trusted = True
+    note = "declared output length of the integrand (an Int >= 1)"
+
+    def inputs(self, S):
+        return {"self": Obj("Function", {})}
+
+    def result(self, S, env):
+        n = S.int("output_length")
+        S.assume(n >= 1)
+        return n
+
+
+class InitEvalDimWise(Contract):
+    """get_result() hands out the operation's result array itself; results reported at earlier stops therefore stay truthful only if the
+    per-iteration reset binds a NEW array instead of overwriting the old one in place"""
+    file, qualname = GO, "Integration.initialize_evaluation_dimension_wise"
+
+    @staticmethod
+    def model_to_input(model):
+        return {"kind": "C05.report_stability"}
+
+    def inputs(self, S):
+        n = S.int("n_out")
+        S.assume(n >= 1)
+        op = Obj("Integration", dict(f=Obj("Function", {}), integral=S.seq("integral", n, R, kind="array")))
+        cont = Obj("MetaRefinementContainer", dict(value=S.seq("container.value", n, R, kind="array")))
+        return {"self": op, "refinement_container": cont}
+
+    def post(self, S, old, env, result):
+        new_i, new_v = env["self"].fields["integral"], env["refinement_container"].fields["value"]
+        old_i_box, old_v_box = S.ex.entry_boxes["integral"], S.ex.entry_boxes["value"]
+        j = z3.Int("zj")
+        ok = isinstance(new_i, Seq) and isinstance(new_v, Seq)
+        if not ok:
+            return [Cl("arrays", False, prop=True)]
+        ni, nv = new_i.to_symbolic(), new_v.to_symbolic()
+        return [Cl("result-reset-to-zero", z3.ForAll([j], z3.Implies(z3.And(j >= 0, j < V(ni.len())), z3.Select(ni.arr, j) == 0)), prop=True),
+                Cl("container-total-reset-to-zero", z3.ForAll([j], z3.Implies(z3.And(j >= 0, j < V(nv.len())), z3.Select(nv.arr, j) == 0)), prop=True),
+                Cl("previously-reported-result-array-is-not-overwritten", (new_i is not old_i_box) and bool(z3.is_true(z3.simplify(old_i_box.to_symbolic().arr == old["self"].fields["integral"].arr))), prop=True),
+                Cl("previously-reported-container-total-is-not-overwritten", (new_v is not old_v_box) and bool(z3.is_true(z3.simplify(old_v_box.to_symbolic().arr == old["refinement_container"].fields["value"].arr))), prop=True)]
+
+
+CONTRACTS += [FOutputLength(), InitEvalDimWise()]
